@@ -83,7 +83,7 @@ fn kdf_cases(run: &mut Run, rng: &mut Rng, n: usize) {
                 let r0_ = rng.next();
                 let roc = *rng.pick(&[0u32, 1, 0xffff, 0x10000, u32::MAX, r0_ as u32]);
                 let r0_ = rng.next();
-                let idx = *rng.pick(&[0u32, 1, 0x7fff_ffff, r0_ as u32 & 0x7fff_ffff]);
+                let idx = *rng.pick(&[0u32, 1, 0xffff, 0x10000, 0x0123_4567, 0x7fff_ffff, r0_ as u32 & 0x7fff_ffff]);
                 let iv = if prof == "gcm" { "-".to_string() } else { hex(&c.verif_build_iv(seq, roc)) };
                 // the AES-CM SRTCP IV is built inline in `cipher_rtcp`: compare its first keystream block
                 let rks = if prof == "gcm" { "-".to_string() } else { let mut z = [0u8; 24]; c.verif_cipher_rtcp(&mut z, idx); hex(&z[8..]) };
@@ -721,6 +721,51 @@ fn many_ssrc_cases(run: &mut Run, rng: &mut Rng) {
 }
 
 
+
+/// MORE THAN 32 SSRCs where the stream under test stays ACTIVE (positive expectation, nothing known):
+/// `active-stream`      G (ROC 1) and 33 other streams all send every 25 s for 100 s — every
+///                      G packet must be accepted (a context that is in use is never "idle", whatever its age);
+/// `active-stream-rtcp` G's media is muted but its SRTCP keeps flowing every 25 s; media resumes after 100 s;
+/// `keep-ssrc-rtcp`     G idles 61 s and resumes with an RTCP packet BEFORE its media (the exemption of the
+///                      SSRC being processed must hold on the RTCP paths too, on both sides).
+fn active_stream_cases(run: &mut Run, rng: &mut Rng) {
+    for (pi, prof) in PROFILES.iter().enumerate() {
+        for kind in ["active-stream", "active-stream-rtcp", "keep-ssrc-rtcp"] {
+            let mut ops = new_pair(rng, pi, prof);
+            let g = 0x0a0b_0c0du32;
+            let mut slot = 0;
+            for k in 0..33u32 { ops.push(Op::ProtectRtp(0, PktSpec::simple(5, 0x2000 + k, vec![1, 2, 3]))); ops.push(Op::UnprotectRtp(1, Src::Slot(slot))); slot += 1; }
+            for seq in [65000u16, 65500, 100, 200] { ops.push(Op::ProtectRtp(0, PktSpec::simple(seq, g, vec![seq as u8, 2]))); ops.push(Op::UnprotectRtp(1, Src::Slot(slot))); slot += 1; }
+            ops.push(Op::ProtectRtcp(0, Src::Lit(rtcp_packet(rng, g, 12)))); ops.push(Op::UnprotectRtcp(1, Src::Slot(slot))); slot += 1;
+            let mut seq = 200u16;
+            if kind == "keep-ssrc-rtcp" {
+                ops.push(Op::Tick(61));
+                ops.push(Op::ProtectRtcp(0, Src::Lit(rtcp_packet(rng, g, 16)))); ops.push(Op::UnprotectRtcp(1, Src::Slot(slot))); slot += 1;
+            } else {
+                // three rounds, 25 s apart: ALL other streams send first (they stay alive, the tables stay above the
+                // high-water mark, and their packets run the idle eviction on both sides), then G
+                for round in 0..3u16 {
+                    ops.push(Op::Tick(25));
+                    for k in 0..33u32 { ops.push(Op::ProtectRtp(0, PktSpec::simple(6 + round, 0x2000 + k, vec![9]))); ops.push(Op::UnprotectRtp(1, Src::Slot(slot))); slot += 1; }
+                    if kind == "active-stream" {
+                        seq += 10;
+                        ops.push(Op::ProtectRtp(0, PktSpec::simple(seq, g, vec![seq as u8, 3]))); ops.push(Op::UnprotectRtp(1, Src::Slot(slot))); slot += 1;
+                    } else {
+                        ops.push(Op::ProtectRtcp(0, Src::Lit(rtcp_packet(rng, g, 12)))); ops.push(Op::UnprotectRtcp(1, Src::Slot(slot))); slot += 1;
+                    }
+                }
+                ops.push(Op::Tick(25));
+                for k in 0..33u32 { ops.push(Op::ProtectRtp(0, PktSpec::simple(20, 0x2000 + k, vec![9]))); ops.push(Op::UnprotectRtp(1, Src::Slot(slot))); slot += 1; }
+            }
+            for d in [100u16, 101] { ops.push(Op::ProtectRtp(0, PktSpec::simple(seq + d, g, vec![d as u8, 7]))); ops.push(Op::UnprotectRtp(1, Src::Slot(slot))); slot += 1; }
+            ops.push(Op::ProtectRtcp(0, Src::Lit(rtcp_packet(rng, g, 12)))); ops.push(Op::UnprotectRtcp(1, Src::Slot(slot)));
+            ops.push(Op::Snap(0)); ops.push(Op::Snap(1));
+            let kind: &'static str = match kind { "active-stream" => "active-stream", "active-stream-rtcp" => "active-stream-rtcp", _ => "keep-ssrc-rtcp" };
+            emit(run, "sess", &Case { ops, expect: Expect::Sync, kind, three: false });
+        }
+    }
+}
+
 /// The `MAX_RX_CONTEXTS` cap: 1023 streams fill the receiver; the 1024th SSRC is still accepted, the
 /// 1025th is refused (nothing touched) while all are live, known SSRCs keep working, and once the others
 /// have idled out a new SSRC gets in again (either a known or the new stream arriving first).
@@ -876,6 +921,7 @@ pub fn run(args: &Args) {
     ext_cases(&mut run, &mut rng, t);
     bigstate_cases(&mut run, &mut rng, t);
     many_ssrc_cases(&mut run, &mut rng);
+    active_stream_cases(&mut run, &mut rng);
     cap_cases(&mut run, &mut rng);
     badkey_cases(&mut run, &mut rng);
     let nh = if t { 6000 } else { 700 };
